@@ -67,6 +67,11 @@ func runSplit(keys []ech.Key, target echx.KeyPair, aead uint16, retry bool, spli
 			}
 		}
 	}
+	if variant == "big-payload" {
+		// a conforming hello whose payload is about 30 kB (a large inner hello, zero padding as the draft recommends): the outer
+		// hello spans two records; how much there is to decrypt has no bearing on which keys are tried
+		s1.Padding = make([]byte, 30000)
+	}
 	b1 := s1.Build()
 	if variant == "low-order-enc" {
 		// the encapsulated key is a point of small order (all zero): no key agreement with it yields a usable secret, so the
@@ -86,7 +91,11 @@ func runSplit(keys []ech.Key, target echx.KeyPair, aead uint16, retry bool, spli
 			}
 		}
 	}()
-	sess, err, p := echx.OpenSessionSplit(b1.Outer.Record(), keys, split)
+	firstFlight := b1.Outer.Record()
+	if len(firstFlight) > 5+16384 {
+		firstFlight = tlsref.FragmentMax(0x0301, b1.Outer.Msg())
+	}
+	sess, err, p := echx.OpenSessionSplit(firstFlight, keys, split)
 	if p != nil {
 		return "", p
 	}
@@ -198,8 +207,8 @@ func Run(r *ev.Run) {
 	var cases []kcase
 	for _, aead := range []uint16{1, 2, 3} {
 		for _, retry := range []bool{false, true} {
-			for _, tgt := range []string{"T", "U", "T:sni-of-another-key", "T:retry-seq2", "B", "T:retry-sni-of-another-key", "U:low-order-enc"} {
-				if (tgt == "T:retry-seq2" || tgt == "T:retry-sni-of-another-key") && !retry || tgt == "U:low-order-enc" && retry {
+			for _, tgt := range []string{"T", "U", "T:sni-of-another-key", "T:retry-seq2", "B", "T:retry-sni-of-another-key", "U:low-order-enc", "T:big-payload"} {
+				if (tgt == "T:retry-seq2" || tgt == "T:retry-sni-of-another-key") && !retry || (tgt == "U:low-order-enc" || tgt == "T:big-payload") && retry {
 					continue
 				}
 				// (target B: the hello is sealed to key B with the AEAD that B's config does NOT list, consistently: never
@@ -249,7 +258,7 @@ func Run(r *ev.Run) {
 	for _, aead := range []uint16{1, 2, 3} {
 		ks := mk(aead)
 		for _, retry := range []bool{false, true} {
-			for _, tgt := range []string{"T", "U", "T:sni-of-another-key", "T:retry-seq2", "B", "T:retry-sni-of-another-key", "U:low-order-enc"} {
+			for _, tgt := range []string{"T", "U", "T:sni-of-another-key", "T:retry-seq2", "B", "T:retry-sni-of-another-key", "U:low-order-enc", "T:big-payload"} {
 				for _, hasT := range []bool{false, true} {
 					var keys []ech.Key
 					if hasT {
